@@ -19,7 +19,7 @@ func init() { Register(c06{}) }
 func (c06) ID() string    { return "C06" }
 func (c06) Level() string { return "exploration" }
 func (c06) Rule() string {
-	return "case = one Add/Write/Close history: the first run indices sweep every sequence over {Add,Write} of length 0..6 x page 1..3 (thorough: length 0..9 x page 1..4) x codec x shape, the rest are seeded (batch sizes from the grammar {0,1,page-1,page,page+1,2page,2page+1,3page+2,random}, empty Writes in every position, 0..2page records pending at Close) x page size 1..8 (sometimes 100) x codec x shape, executed fault-free on the sim disk and compared with the list-of-batches model (independent framing parse + read-back). Non-trivial = the history has an empty Write, or records pending at Close, or a batch >= page size (page chain), or >= 2 row groups. Distinct = distinct canonical strings shape|page|codec|A^n W ... C combined with the digest of the record values."
+	return "case = one Add/Write/Close history: the first run indices sweep every sequence over {Add,Write} of length 0..6 x page 1..3 (thorough: length 0..9 x page 1..4) x codec x shape, the rest are seeded (batch sizes from the grammar {0,1,page-1,page,page+1,2page,2page+1,3page+2,random}, empty Writes in every position, 0..2page records pending at Close) x page size 1..8 (sometimes 100) x codec x shape, executed fault-free on the sim disk (destination kinds: io.Writer only; +StringWriter/ByteWriter/ReaderFrom/Flush/Sync; +io.Seeker whose position is that of a file under a write buffer) and compared with the list-of-batches model (independent framing parse + read-back). Non-trivial = the history has an empty Write, or records pending at Close, or a batch >= page size (page chain), or >= 2 row groups. Distinct = distinct canonical strings shape|page|codec|A^n W ... C combined with the digest of the record values."
 }
 func (c06) Assumptions() []string {
 	return []string{
@@ -29,7 +29,7 @@ func (c06) Assumptions() []string {
 	}
 }
 func (c06) Probes() []string {
-	return []string{"probe/empty-write-first", "probe/empty-write-between", "probe/empty-write-consecutive", "probe/exact-multiple-then-empty", "probe/pending-with-batches", "probe/pending-no-batches", "probe/chain>=3", "probe/no-batch-at-all", "probe/row-groups>=3", "sweep/short-histories", "class/large", "class/many-row-groups"}
+	return []string{"class/giant-page", "sink-kind/ws", "probe/empty-write-first", "probe/empty-write-between", "probe/empty-write-consecutive", "probe/exact-multiple-then-empty", "probe/pending-with-batches", "probe/pending-no-batches", "probe/chain>=3", "probe/no-batch-at-all", "probe/row-groups>=3", "sweep/short-histories", "class/large", "class/many-row-groups"}
 }
 func (c06) Runs(tier string) int {
 	if tier == "thorough" {
@@ -131,6 +131,7 @@ func (p c06) Run(runseed uint64, tier string, acc *Acc) []*core.Violation {
 	probe(st.NoBatchAtAll, "no-batch-at-all")
 	probe(st.NonEmptyBatches >= 3, "row-groups>=3")
 	acc.Inc("codec/" + w.Codec)
+	acc.Inc("sink-kind/" + c.SinkKind)
 	acc.Inc("shape/" + w.Shape)
 	if w.Large {
 		acc.Inc("class/large")
